@@ -3,11 +3,11 @@
    harness/props/C12.py) ARE the reference semantics: quaternion -> matrix is the conjugation action v |-> q v q^*,
    composition is the Hamilton product, matrix -> quaternion returns +-q, from_euler is the product of the elementary
    rotations in the documented order, from_rotvec / as_rotvec round-trip.
-   NOT proved (decided by three-way correspondence implementation / scipy only, see C12.py): as_euler (Bernardes-Viollet)
-   incl. gimbal lock, mean, align_vectors, the end points angle = 0 and pi of the rotation vector maps, from_matrix on
-   non-orthogonal input. *)
+   as_euler (Bernardes-Viollet) is proved in the regular case for all sequences (C12_as_euler_regular).
+   NOT proved (decided by three-way correspondence implementation / scipy only, see C12.py): as_euler at gimbal lock, mean,
+   align_vectors (beyond its Rodrigues kernel), from_matrix on non-orthogonal input. *)
 From MrVerif Require Import Base.Prelude Base.StarRing Model.Rotation Model.Euler
-  Proofs.RotationProofs Proofs.RotationRealProofs Proofs.RotationPowProofs Proofs.EulerProofs.
+  Proofs.RotationProofs Proofs.RotationRealProofs Proofs.RotationPowProofs Proofs.EulerProofs Proofs.EulerAnglesProofs.
 From Coq Require Import Reals.
 
 (* _quaternion_to_matrix is the standard rotation matrix of q: M(q) v = vector part of q (v,0) q^*; and M(q) = M(-q) *)
@@ -59,12 +59,43 @@ Print Assumptions C12_from_euler_unit.
 Theorem C12_from_rotvec : forall (u : vecR) (t : R), dot3 RRing u u = 1%R -> from_rotvec (vscal RRing t u) = polar u (t / 2)%R.
 Proof. exact from_rotvec_polar. Qed.
 Print Assumptions C12_from_rotvec.
-(* _partial: round trip only for rotation angles 2 phi in (0, 2 pi) and with the angle computed as 2 acos(w) (= 2 atan2(|v|, w) of
-   the code for unit q); the end points (angle 0: sinc branch of as_rotvec; angle pi exactly) are decided by correspondence *)
-Theorem C12_rotvec_roundtrip_partial : forall (u : vecR) (phi : R), dot3 RRing u u = 1%R -> (0 < phi < PI)%R ->
-  from_rotvec (as_rotvec (polar u phi)) = polar u phi.
-Proof. exact rotvec_roundtrip. Qed.
-Print Assumptions C12_rotvec_roundtrip_partial.
+(* as_rotvec (angle = 2 atan2(|v|, w), scale angle/sin(angle/2), 2 at angle 0 = the sinc branch) followed by from_rotvec is the
+   identity on every quaternion (sin(phi) u, cos(phi)), |u| = 1, 0 <= phi < pi, i.e. rotation angles in [0, 2 pi): this covers the
+   canonical quaternions (w >= 0: angles in [0, pi]) that as_rotvec is applied to, incl. the end points angle = 0 and angle = pi *)
+Theorem C12_rotvec_roundtrip : forall (u : vecR) (phi : R), dot3 RRing u u = 1%R -> (0 <= phi < PI)%R ->
+  as_rotvec (polar u phi) = vscal RRing (2 * phi)%R u /\ from_rotvec (as_rotvec (polar u phi)) = polar u phi.
+Proof. intros; split; [now apply as_rotvec_polar | now apply rotvec_roundtrip]. Qed.
+Print Assumptions C12_rotvec_roundtrip.
+
+(* the model's atan2 is the polar angle: cos/sin of atan2(y, x) are x/r, y/r *)
+Theorem C12_atan2_polar : forall y x : R, (0 < x * x + y * y)%R ->
+  cos (atan2 y x) = (x / sqrt (x * x + y * y))%R /\ sin (atan2 y x) = (y / sqrt (x * x + y * y))%R.
+Proof. exact atan2_spec. Qed.
+Print Assumptions C12_atan2_polar.
+
+(* as_euler (model of _quaternion_to_euler, Bernardes-Viollet), REGULAR case, for all 24 sequences (every triple of stored axes with
+   different neighbours, proper Euler and Tait-Bryan alike) x extrinsic/intrinsic and every unit quaternion for which the code's
+   gimbal-lock test is negative (|angle_1| > 1e-7 and |angle_1 - pi| > 1e-7 before the pi/2 shift): from_euler applied to the
+   extracted (wrapped) angles is the same rotation.  The singular branch (gimbal lock) is not covered: correspondence only. *)
+Theorem C12_as_euler_regular : forall (quat : quatR) (seq : nat * nat * nat) (extrinsic : bool),
+  valid_seq seq -> qnorm2 RRing quat = 1%R -> euler_regular quat seq extrinsic ->
+  let '(e0, e1, e2) := quaternion_to_euler quat seq extrinsic in let '(s0, s1, s2) := seq in
+  qmat RRing (from_euler (negb extrinsic) [s0; s1; s2] [e0; e1; e2]) = qmat RRing quat.
+Proof. exact as_euler_regular. Qed.
+Print Assumptions C12_as_euler_regular.
+(* before wrapping to (-pi, pi] the extracted angles reproduce the quaternion itself (not only up to sign) *)
+Theorem C12_as_euler_core : forall (quat : quatR) (q r s0 : nat), (q < 3)%nat -> (r < 3)%nat -> (s0 < 3)%nat -> q <> r -> r <> s0 ->
+  qnorm2 RRing quat = 1%R -> abcd_regular quat q r s0 ->
+  let '(e0, e1, e2) := euler_core quat q r s0 in from_euler false [q; r; s0] [e0; e1; e2] = quat.
+Proof. exact ext_core. Qed.
+Print Assumptions C12_as_euler_core.
+
+(* Rodrigues' formula as translated from _axisangle_to_matrix (Gen: gen_axisangle_to_matrix = rodrigues) is the matrix of the
+   half-angle quaternion (sin(t/2) u, cos(t/2)) for a unit axis *)
+Theorem C12_rodrigues : forall (u : vecR) (t : R), dot3 RRing u u = 1%R ->
+  rodrigues RRing u (cos t) (sin t) = qmat RRing (polar u (t / 2)%R).
+Proof. exact rodrigues_half_angle. Qed.
+Print Assumptions C12_rodrigues.
 
 (* non-vacuity: exact rationals; extrinsic 'zy' (stored axes 0,1) with half-angle (sin,cos) = (3/5,4/5), (5/13,12/13) *)
 Example C12_example_euler :
